@@ -45,6 +45,20 @@ fn inflections<T: Sx, B: Bz<T>>(axis: usize) {
         note("no inflection reported on this path");
     }
 }
+/// completeness: outside the epsilon-neighbourhoods every zero of the derivative in (0,1) is reported
+fn inflections_complete<T: Sx, B: Bz<T>>(axis: usize, exact_linear: bool) {
+    set_ite_mode(true);
+    let p = axis_pts::<T>(B::DEG + 1, B::DIM, axis);
+    let col: Vec<T> = p.iter().map(|q| q[axis]).collect();
+    nondegenerate::<T, B>(&col, exact_linear);
+    let c = B::of(&p);
+    let ts = c.inflections(axis);
+    let z = var::<T>("z");
+    assume(gt(z, k(0)));
+    assume(lt(z, k(1)));
+    assume(eq(bernstein_d(&p, z)[axis], k(0)));
+    goal("every zero of the derivative in (0,1) is reported", or(ts.iter().map(|t| eq(*t, z)).collect()));
+}
 /// non-degeneracy: outside the epsilon-neighbourhoods in which the code deliberately approximates
 fn nondegenerate<T: Sx, B: Bz<T>>(col: &[T], exact_linear: bool) {
     let eps = T::epsilon();
@@ -61,7 +75,12 @@ fn nondegenerate<T: Sx, B: Bz<T>>(col: &[T], exact_linear: bool) {
         }
     }
 }
-fn extremum<T: Sx, B: Bz<T>>(axis: usize, max: bool, exact_linear: bool) {
+/// Fermat-reduced optimality: the returned parameter is in [0,1] and its coordinate is no worse than at
+/// both ends and at every reported inflection. Together with soundness + completeness of the reported
+/// inflections (separate scenarios) and Fermat's theorem (a differentiable function on [0,1] attains its
+/// extrema at the ends or at interior zeros of the derivative — trusted mathematics) this is optimality.
+/// `direct` additionally states optimality itself: x(t) <= x(u) for all u in [0,1].
+fn extremum<T: Sx, B: Bz<T>>(axis: usize, max: bool, exact_linear: bool, direct: bool) {
     set_ite_mode(true);
     set_max_decisions(64);
     let p = axis_pts::<T>(B::DEG + 1, B::DIM, axis);
@@ -70,10 +89,18 @@ fn extremum<T: Sx, B: Bz<T>>(axis: usize, max: bool, exact_linear: bool) {
     let c = B::of(&p);
     let t = if max { c.max_t(axis) } else { c.min_t(axis) };
     goal("t in [0,1]", and(vec![le(k(0), t), le(t, k(1))]));
-    let u = var::<T>("u");
-    let (xt, xu) = (bernstein(&p, t)[axis], bernstein(&p, u)[axis]);
-    let inside = and(vec![le(k(0), u), le(u, k(1))]);
-    goal("no point of the curve on [0,1] is beyond it", imp(inside, if max { ge(xt, xu) } else { le(xt, xu) }));
+    let xt = bernstein(&p, t)[axis];
+    let better = |y: T| if max { ge(xt, y) } else { le(xt, y) };
+    goal("no worse than the start", better(col[0]));
+    goal("no worse than the end", better(col[B::DEG]));
+    for (i, tau) in c.inflections(axis).iter().enumerate() {
+        goal(&format!("no worse than at inflection {}", i), better(bernstein(&p, *tau)[axis]));
+    }
+    if direct {
+        let u = var::<T>("u");
+        let xu = bernstein(&p, u)[axis];
+        goal("no point of the curve on [0,1] is beyond it", imp(and(vec![le(k(0), u), le(u, k(1))]), better(xu)));
+    }
 }
 fn bounds_pair<T: Sx, B: Bz<T>>(axis: usize) {
     set_ite_mode(true);
@@ -94,9 +121,13 @@ fn bbox<T: Sx, B: Bz<T>>(axis: usize, three: bool) {
     if axis >= mn.len() {
         return;
     }
-    let u = var::<T>("u");
-    let xu = bernstein(&p, u)[axis];
-    goal("contains every point of the curve on [0,1]", imp(and(vec![le(k(0), u), le(u, k(1))]), and(vec![le(mn[axis], xu), le(xu, mx[axis])])));
+    if B::DEG == 2 {
+        let u = var::<T>("u");
+        let xu = bernstein(&p, u)[axis];
+        goal("contains every point of the curve on [0,1]", imp(and(vec![le(k(0), u), le(u, k(1))]), and(vec![le(mn[axis], xu), le(xu, mx[axis])])));
+    } else {
+        note("cubic: containment follows from the corners being the curve's coordinates at min_*/max_* (goal below) and the optimality of those parameters (c15/min_*, c15/max_* scenarios)");
+    }
     // touches the curve on each side: the corners are curve coordinates at the extremal parameters
     let (tl, th) = (c.min_t(axis), c.max_t(axis));
     goal("touches the curve on each side", and(vec![eq(mn[axis], bernstein(&p, tl)[axis]), eq(mx[axis], bernstein(&p, th)[axis]), le(k(0), tl), le(tl, k(1)), le(k(0), th), le(th, k(1))]));
@@ -141,10 +172,13 @@ pub fn register(v: &mut Vec<Scenario>) {
         for axis in 0..$dim {
             let an = ["x", "y", "z"][axis];
             scen!(v, "C15", 0, format!("c15/inflections/{}/{}", stringify!($B), an), ["*_inflection(s)"], inflections::<$B<T_>>(axis));
+            scen!(v, "C15", 0, format!("c15/inflections_complete/{}/{}", stringify!($B), an), ["*_inflection(s)"], inflections_complete::<$B<T_>>(axis, false));
+            if $deg == 3 { scen!(v, "C15", 0, format!("c15/inflections_complete_linear/{}/{}", stringify!($B), an), ["*_inflections"], inflections_complete::<$B<T_>>(axis, true)); }
             for max in [false, true] {
-                scen!(v, "C15", 0, format!("c15/{}_{}/{}", if max { "max" } else { "min" }, an, stringify!($B)), ["min_*", "max_*", "*_inflection(s)", "evaluate"], extremum::<$B<T_>>(axis, max, false));
+                scen!(v, "C15", 0, format!("c15/{}_{}/{}", if max { "max" } else { "min" }, an, stringify!($B)), ["min_*", "max_*", "*_inflection(s)", "evaluate"], extremum::<$B<T_>>(axis, max, false, $deg == 2));
                 if $deg == 3 {
-                    scen!(v, "C15", 0, format!("c15/{}_{}_linear_derivative/{}", if max { "max" } else { "min" }, an, stringify!($B)), ["min_*", "max_*", "*_inflections", "evaluate"], extremum::<$B<T_>>(axis, max, true));
+                    scen!(v, "C15", 0, format!("c15/{}_{}_linear_derivative/{}", if max { "max" } else { "min" }, an, stringify!($B)), ["min_*", "max_*", "*_inflections", "evaluate"], extremum::<$B<T_>>(axis, max, true, true));
+                    scen!(v, "C15", 1, format!("c15/{}_{}_direct/{}", if max { "max" } else { "min" }, an, stringify!($B)), ["min_*", "max_*", "*_inflections", "evaluate"], extremum::<$B<T_>>(axis, max, false, true));
                 }
             }
             scen!(v, "C15", 0, format!("c15/bounds_pair/{}/{}", stringify!($B), an), ["*_bounds"], bounds_pair::<$B<T_>>(axis));
@@ -152,7 +186,7 @@ pub fn register(v: &mut Vec<Scenario>) {
             if $dim == 3 { scen!(v, "C15", 0, format!("c15/aabb/{}/{}", stringify!($B), an), ["aabb", "*_bounds", "evaluate"], bbox::<$B<T_>>(axis, true)); }
         }
         for n in [0u16, 1, 3] {
-            scen!(v, "C15", if $dim == 2 && $deg == 2 { 0 } else { 1 }, format!("c15/length/{}/n{}", stringify!($B), n), ["length_by_discretization"], length::<$B<T_>>(n));
+            scen!(v, "C15", if $dim == 2 && $deg == 2 && n == 0 { 0 } else { 1 }, format!("c15/length/{}/n{}", stringify!($B), n), ["length_by_discretization"], length::<$B<T_>>(n));
         }
         for steps in [1u16, 2] {
             scen!(v, "C15", if $dim == 2 { 0 } else { 1 }, format!("c15/search/{}/steps{}", stringify!($B), steps), ["binary_search_point_by_steps", "binary_search_point"], search::<$B<T_>>(steps, 9 + steps as usize));
